@@ -164,6 +164,9 @@ fn gen_prog(rng: &mut TestRng, i: usize, which: Which) -> ChainProg {
                 _ => 0.12,
             },
             shapes: true,
+            count_local: which == Which::C02 && nb == 1 && !kind.is_async && !kind.is_spawn,
+            count_used: false,
+            no_count: false,
             allow_deferred: !kind.is_try && (!kind.is_async || fam == Family::AsyncReal),
             // Soundness rule (DESIGN 7.3): a hoisted `Copy` capture used inside a non-move wrapper closure is
             // borrowed; the borrowing value (e.g. a lazy iterator) must not leave a thread / task
@@ -403,7 +406,7 @@ fn gen_prog(rng: &mut TestRng, i: usize, which: Which) -> ChainProg {
                 tup_ty = Ty::Tup(Box::new(tup_ty), Box::new(t.clone()));
                 tup_text = format!("({}, a{})", tup_text, i);
             }
-            let mut g = CG { rng, fam: Family::Sync, next: 0, base: 90_000, caps: 0.15, wrappers: 0.1, shapes: true, allow_deferred: false, spawn_async: true, depth: 0, force: None, forced_done: false, ck: 0.0, ns: 0.0, sn: 0.0, nest: 0.3, nest_depth: 0, nest_log: vec![], nest_pairs: vec![] };
+            let mut g = CG { rng, fam: Family::Sync, next: 0, base: 90_000, caps: 0.15, wrappers: 0.1, shapes: true, count_local: false, count_used: false, no_count: false, allow_deferred: false, spawn_async: true, depth: 0, force: None, forced_done: false, ck: 0.0, ns: 0.0, sn: 0.0, nest: 0.3, nest_depth: 0, nest_log: vec![], nest_pairs: vec![] };
             let try_res = branches.first().map(|b| matches!(b.fin, Ty::Res(_))).unwrap_or(false);
             let (hkind, out_ty): (&str, Ty) = if !kind.is_try {
                 ("then", g.any_ty(1))
@@ -530,7 +533,11 @@ fn mac_fn(p: &ChainProg, idx: usize, suffix: &str) -> String {
     if kind.is_async {
         mac.push_str(&format!("    block_on(async {{\n        let __r = {}.await;\n        format!(\"{{:?}}\", __r)\n    }})\n}}\n", invocation));
     } else {
-        mac.push_str(&format!("    let __r = {};\n    format!(\"{{:?}}\", __r)\n}}\n", invocation));
+        if invocation.contains("__cnt += 1") {
+            mac.push_str(&format!("    let mut __cnt: i64 = 0;\n    let __r = {};\n    format!(\"{{:?}}\", (__r, __cnt))\n}}\n", invocation));
+        } else {
+            mac.push_str(&format!("    let __r = {};\n    format!(\"{{:?}}\", __r)\n}}\n", invocation));
+        }
     }
     mac
 }
@@ -775,7 +782,12 @@ pub fn case_code(p: &ChainProg, idx: usize) -> CaseCode {
             }
         }
     };
-    inner.push_str(&format!("    let __r = {};\n    format!(\"{{:?}}\", __r)\n", result));
+    if inner.contains("__cnt += 1") || result.contains("__cnt += 1") {
+        inner = format!("    let mut __cnt: i64 = 0;\n{}", inner);
+        inner.push_str(&format!("    let __r = {};\n    format!(\"{{:?}}\", (__r, __cnt))\n", result));
+    } else {
+        inner.push_str(&format!("    let __r = {};\n    format!(\"{{:?}}\", __r)\n", result));
+    }
     if kind.is_async {
         r.push_str(&format!("    block_on(async {{\n{}    }})\n}}\n", inner));
     } else {
@@ -967,6 +979,9 @@ pub fn run(id: &str, tier: &str, seed: u64) -> i32 {
             tally(&b.ops, &mut prev, &mut ev.classes, 0);
         }
         *ev.classes.entry(format!("macro {}", p.mac)).or_default() += 1;
+        if p.branches.iter().any(|b| render_branch_macro(b).contains("__cnt += 1")) {
+            *ev.classes.entry("a callback inside a wrapper body counts in a local of the caller".into()).or_default() += 1;
+        }
         if p.mr_wrap && p.branches.iter().any(|b| b.let_name.is_some()) {
             *ev.classes.entry("invocation produced by a macro_rules! wrapper that is given the `let` names".into()).or_default() += 1;
         }
